@@ -37,7 +37,7 @@ func s2RunSteps(c *fw.Case, prop string, p *engine.Profile, steps []engine.Step)
 	r := &lockedRng{r: c.Rng.Fork("delay")}
 	mode := c.Rng.Intn(3)
 	if mode > 0 || p.PSlowPlugin > 0 {
-		w.Delay = func(kind string) {
+		w.SetDelay(func(kind string) {
 			if kind == "plugin.Validate" && p.PSlowPlugin > 0 && r.Intn(100) < p.PSlowPlugin {
 				time.Sleep(time.Duration(5+r.Intn(35)) * time.Millisecond)
 				return
@@ -52,12 +52,12 @@ func s2RunSteps(c *fw.Case, prop string, p *engine.Profile, steps []engine.Step)
 			} else if x < 100*mode+8 {
 				time.Sleep(time.Duration(3+r.Intn(25)) * time.Millisecond) // a rare long stall: reorders whole reconcile runs
 			}
-		}
+		})
 	}
 	if p.PStoreFault > 0 {
 		fr := c.Rng.Fork("storefault")
 		var fmu sync.Mutex
-		w.StoreFault = func(kind string) error {
+		w.SetStoreFault(func(kind string) error {
 			fmu.Lock()
 			defer fmu.Unlock()
 			if fr.Intn(1000) < p.PStoreFault {
@@ -65,7 +65,7 @@ func s2RunSteps(c *fw.Case, prop string, p *engine.Profile, steps []engine.Step)
 				return liberrors.NewUnavailable("injected transient store fault at " + kind)
 			}
 			return nil
-		}
+		})
 	}
 	if steps == nil {
 		steps = engine.GenScenario(c.Rng.Fork("scenario"), p, w.Schema)
@@ -73,7 +73,7 @@ func s2RunSteps(c *fw.Case, prop string, p *engine.Profile, steps []engine.Step)
 	e := &engine.Exec{C: c, W: w, P: p, Steps: steps, Opts: opts}
 	if p.RejectCode != codes.OK {
 		for _, d := range w.Devices {
-			d.RejectCode = p.RejectCode
+			d.SetRejectCode(p.RejectCode)
 		}
 		e.RejectClass = classOf[p.RejectCode]
 	}
